@@ -45,7 +45,8 @@ GetBad(r) ==
                          \/ (~x.ok /\ PrefixOk(r.b, FALSE) /\ exp.why = "mismatch" /\ ~x.tm)
         \/ /\ ~x.panic /\ x.kind = "value" /\ "c10" \in Checks /\ wholeStrict
            /\ (x.ok # exp.ok \/ (x.ok /\ ~ValMatches(exp.v, x.v)))
-        \/ /\ ~x.panic /\ x.kind = "raw" /\ "c10" \in Checks /\ wholeLax
+        \* (documents with an unpaired surrogate escape anywhere are not well-formed: an owned lazy value decodes every member name of an object it walks through)
+        \/ /\ ~x.panic /\ x.kind = "raw" /\ "c10" \in Checks /\ wholeLax /\ ~BRun(r.b, TRUE).badsur
            /\ (x.ok # exp.ok \/ (x.ok /\ x.raw # SubSeq(r.b, exp.v.a + 1, exp.v.z)))
   IN {ep \in DOMAIN r.res : Bad(ep)}
 
@@ -64,6 +65,8 @@ ManyBad(r) ==
            /\ ~PrefixAmbiguous(r.b, TRUE) /\ ~PRun(r.b, TRUE).badsur
            /\ \/ (x.ok /\ Len(x.slots) # n)
               \/ (x.ok /\ \E i \in 1..n : x.slots[i].some /\ ~(L(i).ok /\ SpanEqB(x.slots[i], L(i).v, r.b)))
+              \* a string slot decodes to the code points the value denotes (the escape status travels with the slot)
+              \/ (x.ok /\ \E i \in 1..n : x.slots[i].some /\ L(i).ok /\ ~StrViewOk(x.slots[i], L(i).v))
               \/ (x.ok /\ \E i \in 1..n : ~x.slots[i].some /\ MissKind(root, r.paths[i]) # "nokey")
               \/ ((\A i \in 1..n : L(i).ok) /\ ~x.ok)
   IN {ep \in DOMAIN r.res : Bad(ep)}
